@@ -6,6 +6,7 @@ lena/flow/group_scale.py, lena/structures/elements.py."""
 from pyvc.contracts import Contract, LoopSpec, ClassSpec
 from pyvc.smt import T
 from pyvc.sym import Num
+from contracts.P_hist import H1_INV, H1_FIELDS, mono, incr, CLOSE
 
 GR = "lena/structures/graph.py"
 HF = "lena/structures/hist_functions.py"
@@ -19,7 +20,13 @@ def register(ix):
     from pyvc import lib_graph
     lib_graph.register(ix)          # functools.partial, map over lists of symbolic length, str.format
     register_graph_scale(ix)
+    register_graph_init(ix)
+    register_hist_to_graph(ix)
     register_hist_to_csv(ix)
+    register_hist2d_to_csv(ix)
+    register_scale_to(ix)
+    register_iterable_to_table(ix)
+    register_hist2d(ix)
 
 
 # ---------------------------------------------------------------------------------------------- graph objects
@@ -31,6 +38,7 @@ def graph_fields(d, e, scale_ty, alias=None):
     return {"coords": "PyList[%d,%s]" % (n, ",".join(cols)) if n > 1 else "PyList[1,Lst[Real]]",
             "field_names": "Tuple[%s]" % ",".join(["Str"] * n),
             "_parsed_error_names": "PyList[%d,Tuple[Str['error'],Str,Str,Int]]" % e,
+            "_coord_names": "Tuple[%s]" % ",".join(["Str"] * d),
             "dim": "Int[%d]" % d, "_scale": scale_ty}
 
 
@@ -161,7 +169,855 @@ def register_hist_to_csv(ix):
                      "out[%s] == %s" % (h, row("0")), "out[%s + %s - 1] == %s" % (h, n, row("%s - 1" % n))],
             modifies=[])
     H = "(1 if header != '' else 0)"
-    ix.add(Contract(
+    replace_keeping_assumed(ix, Contract(
         TC, "hist1d_to_csv", props=["C12"],
         cases=[h1("no header", "None", "0", []),
                h1("header", "Str", H, ["header != '' implies out[0] == header"])]))
+
+
+def replace_keeping_assumed(ix, c):
+    """register c under its key; the ASSUMED contract an earlier module registered there (P_sel: the lines are a function of
+    an abstract flow value and the settings) stays as the last case, for call sites whose data is an abstract flow value
+    (ToCSV.run: the histogram is a `V`, its fields cannot be read)"""
+    old = ix.by_key.get(c.key)
+    if old is not None:
+        for lst in ix.by_simple.values():
+            lst[:] = [x for x in lst if x is not old]
+        for oc in (old.cases or [old]):
+            if oc.trusted:
+                if not oc.name or oc.name == old.qual:
+                    oc.name = "%s[abstract flow value, assumed]" % old.qual
+                c.cases.append(oc)
+    return ix.add(c)
+
+
+# ---- hist2d_to_csv: the lines as a reference list (row-major, built by appends)
+def sp_csv2_ref(ip, st, pos, kws):
+    """csv2_ref(e0, e1, bins, separator, dup, header, i, j): the lines hist2d_to_csv has delivered after i complete x blocks
+    and j cells of block i.  With nx = len(e0) - 1, ny = len(e1) - 1, row(i) = i if i < nx else nx - 1 (the block of the
+    upper x edge repeats the LAST x row), line(x, y, c) = '{:f}{}{:f}{}{:f}'.format(x, sep, y, sep, c):
+        csv2_ref(i, j) = csv2_ref(i, j - 1) + [line(e0[i], e1[j - 1], bins[row(i)][j - 1])]                  if j > 0
+        csv2_ref(i, 0) = csv2_ref(i - 1, ny) + ([line(e0[i - 1], e1[ny], bins[row(i - 1)][ny - 1])] if dup else [])  if i > 0
+        csv2_ref(0, 0) = [header] if header else []
+    The whole output is csv2_ref(nx + (1 if dup else 0), 0): one line per cell in the order of iter_bins, each x block
+    followed by the line at the upper y edge, and the block of the upper x edge, iff dup."""
+    from pyvc.speclib import lst_term
+    from pyvc.sym import NoneV, Str, Opaque
+    reg = ip.reg
+    reg.need_val()
+    lr = reg.lst("Real")
+    llr = reg.lst(lr)
+    lk = reg.lst("Key")
+    kcat = reg.ufun("kcat", ["Key", "Key"], "Key")
+    nf = reg.ufun("num_format_Real", ["Key", "Real"], "Key")
+    fkey = reg.key("f").s
+    F = lambda x: "(%s %s %s)" % (nf, fkey, x)
+    line = lambda x, y, c: "(%s (%s (%s (%s %s sep) %s) sep) %s)" % (kcat, kcat, kcat, kcat, F(x), F(y), F(c))
+    app = lambda l, v: "(let ((l_ %s)) (mk_%s (store (arr_%s l_) (len_%s l_) %s) (+ (len_%s l_) 1)))" % (l, lk, lk, lk, v, lk)
+    sel = lambda a, i: "(select (arr_%s %s) %s)" % (lr, a, i)
+    cell = lambda r, c: "(select (arr_%s (select (arr_%s b) %s)) %s)" % (lr, llr, r, c)
+    NX, NY = "(- (len_%s e0) 1)" % lr, "(- (len_%s e1) 1)" % lr
+    row = lambda i: "(ite (< %s %s) %s (- %s 1))" % (i, NX, i, NX)
+    rec = lambda i, j: "(csv2_ref e0 e1 b sep dup base %s %s)" % (i, j)
+    body = "(ite (> j 0) %s (ite (> i 0) (ite dup %s %s) base))" % (
+        app(rec("i", "(- j 1)"), line(sel("e0", "i"), sel("e1", "(- j 1)"), cell(row("i"), "(- j 1)"))),
+        app(rec("(- i 1)", NY), line(sel("e0", "(- i 1)"), sel("e1", NY), cell(row("(- i 1)"), "(- %s 1)" % NY))),
+        rec("(- i 1)", NY))
+    reg.fun_decl("csv2_ref", "(define-fun-rec csv2_ref ((e0 %s) (e1 %s) (b %s) (sep Key) (dup Bool) (base %s) (i Int) (j Int)) %s %s)"
+                 % (lr, lr, llr, lk, lk, body))
+    e0, e1 = lst_term(ip, st, pos[0], lr), lst_term(ip, st, pos[1], lr)
+    b = lst_term(ip, st, pos[2], llr)
+    sep = ip.key_term(pos[3])
+    dup = ip.truth(st, pos[4])
+    empty = reg.l_empty_canonical(lk)
+    hdr = pos[5]
+    if isinstance(hdr, NoneV):
+        base = empty.s
+    else:
+        h = ip.key_term(hdr)
+        base = "(ite (= %s %s) %s %s)" % (h.s, reg.key("").s, empty.s, reg.l_append(empty, h).s)
+    return ip.lst_view(T("(csv2_ref %s %s %s %s %s %s %s %s)" % (e0.s, e1.s, b.s, sep.s, dup.s, base, ip.num(pos[6]).s,
+                                                               ip.num(pos[7]).s), lk))
+
+
+def register_hist2d_to_csv(ix):
+    """hist2d_to_csv docstring: `Yield CSV-formatted strings for a two-dimensional histogram.`  C12: one row per cell (plus
+    the rows duplicating the last edge when requested); rectangular histograms: the rows at the upper x edge repeat the
+    LAST x row (see csv2_ref)."""
+    ix.spec_names["csv2_ref"] = sp_csv2_ref
+    ix.add_class(ClassSpec("histogram_csv2", HI, alias_of="histogram",
+                           fields={"edges": "PyList[2,Lst[Real]]", "bins": "Lst[Lst[Real]]", "dim": "Int[2]",
+                                   "nbins": "PyList[2,Int]"}))
+    NX, NY = "(len(hist.edges[0]) - 1)", "(len(hist.edges[1]) - 1)"
+    req = ["len(hist.edges[0]) >= 2", "len(hist.edges[1]) >= 2", "len(hist.bins) == %s" % NX,
+           "all(len(hist.bins[i]) == %s for i in range(len(hist.bins)))" % NY,
+           "hist.nbins[0] == %s" % NX, "hist.nbins[1] == %s" % NY]
+    R0 = lambda i, j: "csv2_ref(hist.edges[0], hist.edges[1], hist.bins, separator, duplicate_last_bin, header, %s, %s)" % (i, j)
+
+    def h2(name, header_ty, rows_only=False):
+        H = "0" if header_ty == "None" else "(1 if header != '' else 0)"
+        D = "(1 if duplicate_last_bin else 0)"
+        W = "(%s + %s)" % (NY, D)
+        if rows_only:
+            # the NUMBER of rows, as a unit of its own (plain arithmetic: no reference list among the hypotheses)
+            cnt0 = ["len(out) == %s + _i0 * %s" % (H, W)]
+            cnt1 = ["len(out) == %s + _i0 * %s + _i1" % (H, W)]
+            cnt2 = ["len(out) == %s + %s * %s + _i2" % (H, NX, W)]
+            # one row per cell, plus one row per x block and the block of the upper x edge when requested
+            ens = ["len(out) == %s + (%s + %s) * %s" % (H, NX, D, W)]
+            R = lambda i, j: "out"
+        else:
+            cnt0 = cnt1 = cnt2 = []
+            ens = ["out == " + R0("%s + (1 if duplicate_last_bin else 0)" % NX, "0")]
+            R = R0
+        return Contract(
+            TC, "hist2d_to_csv", name="hist2d_to_csv[%s%s]" % (name, ", number of rows" if rows_only else ""),
+            ghost={"str_format": True},
+            params={"hist": "Inst[histogram_csv2]", "header": header_ty, "separator": "Str", "duplicate_last_bin": "Bool"},
+            defaults={"header": None, "separator": ",", "duplicate_last_bin": True},
+            generator=True, yields="Key", requires=req,
+            loops={0: LoopSpec(invariant=["_i0 <= %s" % NX, "out == " + R("_i0", "0"), "_i0 > 0 implies x_ind == _i0 - 1"] + cnt0,
+                               ghost={"x_ind": "Int", "bin_content": "Real"}),
+                   1: LoopSpec(invariant=["_i1 <= %s" % NY, "out == " + R("_i0", "_i1"),
+                                          "_i1 > 0 implies bin_content == hist.bins[_i0][_i1 - 1]"] + cnt1,
+                               ghost={"bin_content": "Real"}),
+                   2: LoopSpec(invariant=["_i2 <= %s" % NY, "out == " + R(NX, "_i2"),
+                                          "_i2 > 0 implies bin_content == hist.bins[%s - 1][_i2 - 1]" % NX] + cnt2,
+                               ghost={"bin_content": "Real"})},
+            ensures=ens,
+            modifies=[])
+    replace_keeping_assumed(ix, Contract(TC, "hist2d_to_csv", props=["C12"],
+                                         cases=[h2("no header", "None"), h2("header", "Str")]))
+    ix.add(Contract(TC, "hist2d_to_csv", props=["C12"], qualkey="hist2d_to_csv#rows",
+                    cases=[h2("no header", "None", True), h2("header", "Str", True)]))
+
+
+# ---------------------------------------------------------------------------------------------- graph.__init__
+def is_err(f):
+    return "%s.startswith('error_')" % f
+
+
+def belongs(e, c):
+    """docstring: `Name of a coordinate error is "error_" appended by coordinate name.  Further error details are appended
+    after '_'`: the error field e belongs to the coordinate named c"""
+    return "({e}[6:] == {c} or {e}[6:].startswith({c} + '_'))".format(e=e, c=c)
+
+
+def register_graph_init(ix):
+    """graph.__init__ docstring: `field_names must have as many elements as coords and each field name must be unique. ...
+    Error fields must go after all other coordinates.  Name of a coordinate error is "error_" appended by coordinate name.
+    Further error details are appended after '_'. ... dim is the dimension of the graph, that is of all its coordinates
+    without errors.  In case of incorrect initialization arguments, LenaTypeError or LenaValueError is raised.`
+    (+ the comment `require coords to be of the same size`).  Strings are symbolic: startswith / slicing / concatenation
+    are uninterpreted functions of their arguments, so the clauses hold for EVERY naming of the given shape."""
+    ix.add_class(ClassSpec("graph0", GR, fields={}, alias_of="graph"))          # under construction
+    ix.add(Contract(GR, "graph._parse_error_names", props=[], params={"self": "Any", "field_names": "Any"}, inline=True))
+    ALL = ["self.coords", "self._scale", "self.field_names", "self._parsed_error_names", "self._coord_names", "self.dim"]
+    cases = []
+    for d, e in GRAPH_SHAPES:
+        n = d + e
+        fn = lambda k: "field_names[%d]" % k
+        shape = ["not " + is_err(fn(k)) for k in range(d)] + [is_err(fn(k)) for k in range(d, n)]
+        unequal = " or ".join("len(coords[%d]) != len(coords[0])" % k for k in range(1, n)) or "False"
+        dupl = " or ".join("%s == %s" % (fn(a), fn(b)) for a in range(n) for b in range(a + 1, n)) or "False"
+        # number of coordinates an error field belongs to: must be exactly one
+        count = lambda k: " + ".join("(1 if %s else 0)" % belongs(fn(d + k), fn(c)) for c in range(d))
+        badname = " or ".join("(%s) != 1" % count(k) for k in range(e)) or "False"
+        for scaled in (False, True):
+            ens = ["self.coords is coords", "self.field_names == field_names", "self.dim == %d" % d,
+                   "self._scale == scale" if scaled else "self._scale is None"]
+            ens += ["self._coord_names[%d] == %s" % (c, fn(c)) for c in range(d)] + ["len(self._coord_names) == %d" % d]
+            ens.append("len(self._parsed_error_names) == %d" % e)
+            for k in range(e):
+                pe = "self._parsed_error_names[%d]" % k
+                ens += ["%s[0] == 'error'" % pe, "%s[3] == %d" % (pe, d + k),
+                        # ... names THE coordinate this error field belongs to (and is one of the coordinate names)
+                        "(" + " or ".join("%s[1] == %s" % (pe, fn(c)) for c in range(d)) + ")"]
+                ens += ["%s implies %s[1] == %s" % (belongs(fn(d + k), fn(c)), pe, fn(c)) for c in range(d)]
+                ens.append("%s[2] == %s[6:][len(%s[1]) + 1:]" % (pe, fn(d + k), pe))
+            cases.append(Contract(
+                GR, "graph.__init__", name="graph.__init__[%d coordinates, %d error fields, scale %s]"
+                % (d, e, "given" if scaled else "None"),
+                params={"self": "Self[graph0]", "coords": "PyList[%d,Lst[Real]]" % n,
+                        "field_names": "Tuple[%s]" % ",".join(["Str"] * n), "scale": "Real" if scaled else "None"},
+                defaults={"scale": None}, post_class=gname(d, e, scaled), requires=shape,
+                raises={"LenaValueError": "(%s) or (%s) or (%s)" % (unequal, dupl, badname)},
+                ensures=ens, modifies=ALL))
+    # ---- incorrect initialization arguments
+    def bad(name, coords_ty, names_ty, raises, ensures=()):
+        return Contract(GR, "graph.__init__", name="graph.__init__[%s]" % name,
+                        params={"self": "Self[graph0]", "coords": coords_ty, "field_names": names_ty, "scale": "None"},
+                        defaults={"scale": None}, raises=raises, ensures=list(ensures), modifies=ALL)
+    for n in (2, 3, 4):
+        fn = lambda k: "field_names[%d]" % k
+        misordered = " or ".join("(%s and not %s)" % (is_err(fn(i)), is_err(fn(j))) for i in range(n) for j in range(i + 1, n))
+        # whatever the naming: the constructor returns only if no error field precedes a coordinate field and the names are
+        # pairwise different (otherwise it raises; only LenaValueError may escape)
+        cases.append(bad("%d fields in any naming: error fields go after the coordinate fields" % n, "PyList[%d,Lst[Real]]" % n,
+                         "Tuple[%s]" % ",".join(["Str"] * n), {"LenaValueError": "?"},
+                         ["not (%s)" % misordered] + ["%s != %s" % (fn(a), fn(b)) for a in range(n) for b in range(a + 1, n)]))
+    cases.append(bad("no coords", "PyList[0,Lst[Real]]", "Tuple[Str,Str]", {"LenaValueError": "True"}))
+    cases.append(bad("field names in a list", "PyList[2,Lst[Real]]", "PyList[2,Str]",
+                     {"LenaValueError": "len(coords[1]) != len(coords[0])", "LenaTypeError": "len(coords[1]) == len(coords[0])"}))
+    ix.add(Contract(GR, "graph.__init__", props=["C12"], cases=cases, ghost={"select_by_requires": True}))
+
+
+# ---------------------------------------------------------------------------------------------- hist_to_graph (1-d)
+def register_hist_to_graph(ix):
+    """hist_to_graph docstring: `make_value is a function to set the value of a graph's point.  By default it is bin
+    content. ... get_coordinate defines what the coordinate of a graph point created from a histogram bin will be.  It
+    can be "left" (default), "right" and "middle". ... field_names set field names of the graph.  Their number must be the
+    same as the dimension of the result. ... scale becomes the graph's scale (unknown by default).  If it is True, it uses
+    the histogram scale.`  C12: `hist_to_graph yields one point per cell at its left/right/middle coordinate with that
+    cell's value`."""
+    MODES = [("left", "hist.edges[k]"), ("right", "hist.edges[k + 1]"), ("middle", "0.5 * (hist.edges[k] + hist.edges[k + 1])")]
+
+    def coord_clauses(col, n):
+        # the k-th point lies at the left / right edge or in the middle of cell k
+        return ["get_coordinate == '%s' implies all(%s[k] == %s for k in range(%s))" % (m, col, x, n) for m, x in MODES]
+    bad_coord = "get_coordinate != 'left' and get_coordinate != 'right' and get_coordinate != 'middle'"
+    H_REQ = [inv.replace("self.", "hist.") for inv in H1_INV]
+
+    def h2g(name, hist_ty, mv_ty, d, e, scale_ty, value, scale_ens, scaled, modifies=()):
+        ncol = d + e
+        fn_ty = "Tuple[%s]" % ",".join(["Str"] * ncol)
+        names_ok = ["not " + is_err("field_names[%d]" % k) for k in range(d)] + [is_err("field_names[%d]" % k) for k in range(d, ncol)]
+        dupl = " or ".join("field_names[%d] == field_names[%d]" % (a, b) for a in range(ncol) for b in range(a + 1, ncol))
+        count = lambda k: " + ".join("(1 if %s else 0)" % belongs("field_names[%d]" % (d + k), "field_names[%d]" % c) for c in range(d))
+        badname = " or ".join("(%s) != 1" % count(k) for k in range(e)) or "False"
+        ens = ["len(result.coords) == %d" % ncol, "result.field_names == field_names", "result.dim == %d" % d] + scale_ens
+        ens += ["len(result.coords[%d]) == len(hist.bins)" % c for c in range(ncol)]
+        ens += coord_clauses("result.coords[0]", "len(hist.bins)")
+        inv = ["len(coords[%d]) == _i" % c for c in range(ncol)] + coord_clauses("coords[0]", "_i")
+        for c, v in enumerate(value):
+            ens.append("all(result.coords[%d][k] == %s for k in range(len(hist.bins)))" % (c + 1, v))
+            inv.append("all(coords[%d][k] == %s for k in range(_i))" % (c + 1, v))
+        return Contract(
+            HF, "hist_to_graph", name="hist_to_graph[1-d, %s]" % name,
+            params={"hist": hist_ty, "make_value": mv_ty, "get_coordinate": "Str", "field_names": fn_ty, "scale": scale_ty},
+            defaults={"make_value": None, "get_coordinate": "left", "scale": None},
+            result="Inst[%s]" % gname(d, e, scaled), requires=H_REQ + names_ok,
+            loops={0: LoopSpec(invariant=inv, havoc=["coords[%d]" % c for c in range(ncol)])},
+            local_types={"coords": "PyList[%d,Lst[Real]]" % ncol},
+            # a scale typed Real is an int / a float, not the object True (`if scale is True`)
+            ghost={"numbers_are_not_bools": True},
+            # (graph.__init__ rejects equal names and error fields that belong to no / several coordinates)
+            raises={"LenaValueError": "(%s) or %s or %s" % (bad_coord, dupl, badname)}, ensures=ens,
+            modifies=list(modifies))
+    BIN = ["hist.bins[k]"]
+    MV1 = ["make_value(hist.bins[k])"]
+    MV2 = ["make_value(hist.bins[k])[0]", "make_value(hist.bins[k])[1]"]
+    INTEGRAL = "integral1d(hist.bins, hist.edges, len(hist.bins))"
+    ix.add(Contract(
+        HF, "hist_to_graph", props=["C12"],
+        cases=[
+            h2g("bin content, scale unknown", "Inst[histogram_any]", "None", 2, 0, "None", BIN, ["result._scale is None"], False),
+            # scale=True: the histogram's own scale (computed now and stored, or the one stored before)
+            h2g("bin content, scale=True, histogram scale not computed before", "Inst[histogram]", "None", 2, 0, "Bool", BIN,
+                ["scale implies result._scale == " + INTEGRAL], True, modifies=["hist._scale"]),
+            h2g("bin content, scale=True, histogram scale computed before", "Inst[histogram_scaled]", "None", 2, 0, "Bool", BIN,
+                ["scale implies result._scale == old(hist._scale)"], True, modifies=["hist._scale"]),
+            h2g("bin content, scale given", "Inst[histogram_any]", "None", 2, 0, "Real", BIN, ["result._scale == scale"], True),
+            h2g("make_value gives a number", "Inst[histogram_any]", "Fn[Real,Real]", 2, 0, "None", MV1,
+                ["result._scale is None"], False),
+            h2g("make_value gives (value, error), fields x, y, error_...", "Inst[histogram_any]", "Fn[Real,Tuple[Real,Real]]",
+                2, 1, "None", MV2, ["result._scale is None"], False),
+            h2g("make_value gives a pair, three coordinate fields", "Inst[histogram_any]", "Fn[Real,Tuple[Real,Real]]",
+                3, 0, "Real", MV2, ["result._scale == scale"], True),
+        ]))
+
+
+# ---------------------------------------------------------------------------------------------- ScaleTo.__call__, scale_to
+H_SC = "integral1d({h}.bins, {h}.edges, len({h}.bins))"
+
+
+def hist_rescaled(h, s, old_scale):
+    """histogram h rescaled to s from old_scale (clauses over the state after / before the call)"""
+    return ["len({h}.bins) == old(len({h}.bins))".format(h=h),
+            "all({h}.bins[i] == old({h}.bins[i]) * {s} / {o} for i in range(len({h}.bins)))".format(h=h, s=s, o=old_scale),
+            "{h}.n_out_of_range == old({h}.n_out_of_range) * ({s} / {o})".format(h=h, s=s, o=old_scale),
+            "{h}._scale == {s}".format(h=h, s=s)]
+
+
+def hist_same(h):
+    return ["len({h}.bins) == old(len({h}.bins))".format(h=h),
+            "all({h}.bins[i] == old({h}.bins[i]) for i in range(len({h}.bins)))".format(h=h),
+            "{h}.n_out_of_range == old({h}.n_out_of_range)".format(h=h)]
+
+
+def graph_rescaled(g, d, e, s):
+    ens = ["%s._scale == %s" % (g, s)]
+    for k in range(d + e):
+        col, oldc = "%s.coords[%d]" % (g, k), "old(%s.coords[%d])" % (g, k)
+        resc = "True" if k == d - 1 else "False" if k < d else "(%s._parsed_error_names[%d][1] == %s.field_names[%d])" % (g, k - d, g, d - 1)
+        ens.append("len(%s) == len(%s)" % (col, oldc))
+        ens.append("all(%s[i] == (%s[i] * (%s / old(%s._scale)) if %s else %s[i]) for i in range(len(%s)))"
+                   % (col, oldc, s, g, resc, oldc, col))
+    return ens
+
+
+def graph_same(g, d, e):
+    ens = []
+    for k in range(d + e):
+        col, oldc = "%s.coords[%d]" % (g, k), "old(%s.coords[%d])" % (g, k)
+        ens += ["len(%s) == len(%s)" % (col, oldc), "all(%s[i] == %s[i] for i in range(len(%s)))" % (col, oldc, col)]
+    return ens
+
+
+def register_scale_to(ix):
+    """ScaleTo docstring: `scale_to is the number to which the data will be scaled. ... Scale the data part of the value.  If
+    the structure has zero or unknown scale, LenaValueError or LenaAttributeError will be raised.`
+    scale_to docstring: `Scale each structure in a group.  The group is a sequence of (structure, context) pairs ...  Each
+    structure must have a method scale.  The original group is rescaled in place.  If any item could not be rescaled and
+    the options were not set to ignore that, LenaValueError is raised.`  C12: `scale_to / ScaleTo use structure.scale`:
+    the structure is rescaled as its own scale() does it, the context is left alone."""
+    ix.add_class(ClassSpec("ScaleTo", SE, fields={"_scale_to": "Real"}))
+    D, S = "value[0]", "self._scale_to"
+    g21 = lambda sc: "Inst[%s]" % gname(2, 1, sc)
+
+    def call(name, data_ty, raises, ens, exc_ens, mod, req=()):
+        return Contract(
+            SE, "ScaleTo.__call__", name="ScaleTo.__call__[%s]" % name, dict_model="Val",
+            params={"self": "Self[ScaleTo]", "value": "Tuple[%s,Dict]" % data_ty}, result="Any",
+            requires=["isdict(value[1])"] + list(req), raises=raises, raises_frame="pure",
+            exc_ensures={"LenaValueError": exc_ens} if exc_ens else {},
+            # the very same structure and the very same context are handed on
+            ensures=["result[0] is value[0]", "result[1] is value[1]", "value[1] == old(value[1])"] + ens,
+            modifies=mod)
+    HREQ = [inv.replace("self.", "value[0].") for inv in H1_INV]
+    hmod = ["value[0].bins", "value[0].n_out_of_range", "value[0]._scale"]
+    gmod = ["value[0].coords", "value[0]._scale", "value[0].coords[1]", "value[0].coords[2]"]
+    ix.add(Contract(
+        SE, "ScaleTo.__call__", props=["C12"],
+        cases=[
+            call("(histogram, context), scale computed before", "Inst[histogram_scaled]", {"LenaValueError": D + "._scale == 0"},
+                 hist_rescaled(D, S, "old(%s._scale)" % D), hist_same(D), hmod, HREQ),
+            call("(histogram, context), scale not computed before", "Inst[histogram]",
+                 {"LenaValueError": H_SC.format(h=D) + " == 0"},
+                 hist_rescaled(D, S, "old(%s)" % H_SC.format(h=D)), hist_same(D), hmod, HREQ),
+            call("(graph x, y, error_..., context)", g21(True), {"LenaValueError": D + "._scale == 0"},
+                 graph_rescaled(D, 2, 1, S), graph_same(D, 2, 1), gmod),
+            call("(graph of unknown scale, context)", g21(False), {"LenaValueError": "True"}, [], graph_same(D, 2, 1), []),
+        ]))
+
+
+    # ---- scale_to(number, group): every structure of the group is rescaled by its own scale()
+    HS, G20, G21 = "Inst[histogram_scaled]", "Inst[%s]" % gname(2, 0, True), "Inst[%s]" % gname(2, 1, True)
+    GU = "Inst[%s]" % gname(2, 0, False)
+    SHAPE = {HS: None, G20: (2, 0), G21: (2, 1)}
+
+    def group_case(name, tys, props_note=""):
+        n = len(tys)
+        it = lambda k: "group[%d][0]" % k
+        zero = lambda k: "%s._scale == 0" % it(k)
+        req, mod = [], []
+        for k, ty in enumerate(tys):
+            req.append("isdict(group[%d][1])" % k)
+            if SHAPE[ty] is None:
+                req += [inv.replace("self.", it(k) + ".") for inv in H1_INV]
+                mod += ["%s.bins" % it(k), "%s.n_out_of_range" % it(k), "%s._scale" % it(k)]
+            else:
+                d, e = SHAPE[ty]
+                mod += ["%s.coords" % it(k), "%s._scale" % it(k)] + ["%s.coords[%d]" % (it(k), c) for c in range(d - 1, d + e)]
+        rescaled = lambda k: hist_rescaled(it(k), "scale_to", "old(%s._scale)" % it(k)) if SHAPE[tys[k]] is None \
+            else graph_rescaled(it(k), SHAPE[tys[k]][0], SHAPE[tys[k]][1], "scale_to")
+        same = lambda k: hist_same(it(k)) + ["%s._scale == old(%s._scale)" % (it(k), it(k))] if SHAPE[tys[k]] is None \
+            else graph_same(it(k), *SHAPE[tys[k]]) + ["%s._scale == old(%s._scale)" % (it(k), it(k))]
+        ens, exc = [], []
+        for k in range(n):
+            # an item with a non-zero scale is rescaled to scale_to; one with a zero scale is left as it is (only reached
+            # when allow_zero_scale: otherwise the call raises)
+            ens += ["not old(%s) implies %s" % (zero(k), cl) for cl in rescaled(k)]
+            ens += ["old(%s) implies %s" % (zero(k), cl) for cl in same(k)]
+            ens.append("group[%d][1] == old(group[%d][1])" % (k, k))
+            # on the exception: the items before the first one of zero scale are rescaled already, it and the later ones
+            # are untouched (`The original group is rescaled in place`)
+            before_zero = " and ".join("not old(%s)" % zero(j) for j in range(k + 1))
+            first_zero_before = " or ".join("old(%s)" % zero(j) for j in range(k + 1))
+            exc += ["%s implies %s" % (before_zero, cl) for cl in rescaled(k)]
+            exc += ["(%s) implies %s" % (first_zero_before, cl) for cl in same(k)]
+        return Contract(
+            GS, "scale_to", name="scale_to[number, group of %s]" % name, dict_model="Val",
+            params={"scale_to": "Real", "group": "PyList[%d,%s]" % (n, ",".join("Tuple[%s,Dict]" % t for t in tys)) if n > 1
+                    else "PyList[1,Tuple[%s,Dict]]" % tys[0], "allow_zero_scale": "Bool", "allow_unknown_scale": "Bool"},
+            defaults={"allow_zero_scale": False, "allow_unknown_scale": False}, result=None, requires=req,
+            raises={"LenaValueError": "not allow_zero_scale and (%s)" % " or ".join(zero(k) for k in range(n))},
+            exc_ensures={"LenaValueError": exc}, ensures=ens, modifies=mod)
+    # FINDING (docstring vs code, not attached to a property: props=[]).  GroupScale docstring: `attempts to rescale a
+    # structure with unknown or zero scale raise an error.  If allow_zero_scale and allow_unknown_scale are set to True, the
+    # corresponding errors are ignored and the structure remains unscaled`, read as: allow_unknown_scale governs structures
+    # of UNKNOWN scale.  A `graph` of unknown scale raises LenaValueError from scale() (not AttributeError), which scale_to
+    # files under "scale is zero": allow_unknown_scale=True alone does not ignore it, allow_zero_scale=True alone does.
+    # `python3-vt tools/dbg.py lena/flow/group_scale.py "scale_to#docstring-literal"` shows the failed obligations.
+    ix.add(Contract(GS, "scale_to", props=[], qualkey="scale_to#docstring-literal", cases=[Contract(
+        GS, "scale_to", name="scale_to[number, a graph of unknown scale: allow_unknown_scale decides]", dict_model="Val",
+        params={"scale_to": "Real", "group": "PyList[1,Tuple[%s,Dict]]" % GU, "allow_zero_scale": "Bool", "allow_unknown_scale": "Bool"},
+        defaults={"allow_zero_scale": False, "allow_unknown_scale": False}, result=None, requires=["isdict(group[0][1])"],
+        raises={"LenaValueError": "not allow_unknown_scale"}, ensures=graph_same("group[0][0]", 2, 0), modifies=[])],
+        notes="documents a finding; deliberately not attached to a property"))
+    ix.add(Contract(
+        GS, "scale_to", props=["C12"],
+        cases=[group_case("one histogram", [HS]),
+               group_case("a histogram and a graph", [HS, G20]),
+               group_case("a graph with errors, a graph and a histogram", [G21, G20, HS])]))
+
+
+# ---------------------------------------------------------------------------------------------- iterable_to_table
+def register_iterable_to_table(ix):
+    """iterable_to_table docstring: `The resulting table is yielded line by line.  If the header or footer is empty, it is
+    not yielded.  format_ controls the output of individual cells in a row.  By default, it uses standard Python
+    representation. ... Each row is prepended with row_start and appended with row_end.  If it consists of several
+    columns, they are joined by row_separator.`  C12 (ToCSV for structures with rows()): one line per row, in order.
+    The text of a number is an uninterpreted function of the number (pyvc/lib_graph.py)."""
+    H = "(1 if header != '' else 0)"
+    PARAMS = {"iterable": None, "format_": "None", "header": "Str", "header_fields": "Tuple[]", "row_start": "Str",
+              "row_end": "Str", "row_separator": "Str", "footer": "Str"}
+    DEF = {"format_": None, "header": "", "header_fields": (), "row_start": "", "row_end": "", "row_separator": ",", "footer": ""}
+    frame = ["header != '' implies out[0] == header",
+             "footer != '' implies out[len(out) - 1] == footer"]
+    # rows that are single numbers (not iterable: `cols = (row,)`)
+    single = "row_start + row_separator.join([repr(iterable[k])]) + row_end"
+    # rows that are pairs of numbers
+    pair = lambda k: "row_start + row_separator.join([repr(iterable[%s][0]), repr(iterable[%s][1])]) + row_end" % (k, k)
+    fpair = lambda k: "row_start + '{:.2f};{:.0f}'.format(iterable[%s][0], iterable[%s][1]) + row_end" % (k, k)
+
+    def rows3(name, fmt_ty, line, sep_ty="Str"):
+        return Contract(
+            TC, "iterable_to_table", name="iterable_to_table[%s]" % name, ghost={"str_format": True},
+            params=dict(PARAMS, iterable="PyList[3,Tuple[Real,Real]]", format_=fmt_ty, row_separator=sep_ty), defaults=DEF,
+            generator=True, yields="Key",
+            ensures=["len(out) == %s + 3 + (1 if footer != '' else 0)" % H] + frame +
+                    ["out[%s + %d] == %s" % (H, k, line(k)) for k in range(3)],
+            modifies=[])
+    replace_keeping_assumed(ix, Contract(
+        TC, "iterable_to_table", props=["C12"],
+        cases=[
+            Contract(TC, "iterable_to_table", name="iterable_to_table[rows are single numbers, default format]",
+                     ghost={"str_format": True}, params=dict(PARAMS, iterable="Lst[Real]"), defaults=DEF,
+                     generator=True, yields="Key",
+                     loops={0: LoopSpec(invariant=["len(out) == %s + _i" % H, "header != '' implies out[0] == header",
+                                                   "all(out[%s + k] == %s for k in range(_i))" % (H, single)])},
+                     ensures=["len(out) == %s + len(iterable) + (1 if footer != '' else 0)" % H] + frame +
+                             ["all(out[%s + k] == %s for k in range(len(iterable)))" % (H, single)],
+                     modifies=[]),
+            rows3("three rows of pairs, default format", "None", pair),
+            rows3("three rows of pairs, format_=('{:.2f}', '{:.0f}'), separator ';'", "Tuple[Str['{:.2f}'],Str['{:.0f}']]", fpair,
+                  sep_ty="Str[';']"),
+        ]))
+
+
+# ---------------------------------------------------------------------------------------------- 2-dimensional histograms
+H2_FIELDS = {"edges": "PyList[2,Lst[Real]]", "bins": "Lst[Lst[Real]]", "n_out_of_range": "Real", "dim": "Int[2]",
+             "nbins": "PyList[2,Int]", "ranges": "PyList[2,Tuple[Real,Real]]"}
+H2_INV = ["len(self.edges[0]) >= 2", "len(self.edges[1]) >= 2", mono("self.edges[0]"), mono("self.edges[1]"),
+          "len(self.bins) == len(self.edges[0]) - 1",
+          "all(len(self.bins[i]) == len(self.edges[1]) - 1 for i in range(len(self.bins)))",
+          "self.nbins[0] == len(self.edges[0]) - 1", "self.nbins[1] == len(self.edges[1]) - 1"]
+ALL2 = "all(all({body} for j in range(len(self.bins[i]))) for i in range(len(self.bins)))"
+
+
+def register_hist2d(ix):
+    """histogram.scale for 2-dimensional histograms whose scale was computed before (C12: `Rescaling a histogram ... to s
+    multiplies exactly its contents (bins and n_out_of_range) ... by s/old scale, leaves edges ... untouched ... and raises
+    LenaValueError for a zero ... scale`; `all 1- to 3-dimensional histograms`)."""
+    ix.add_class(ClassSpec("histogram2_scaled", HI, fields=dict(H2_FIELDS, _scale="Real"), invariant=H2_INV, alias_of="histogram"))
+    untouched = ["len(self.bins) == old(len(self.bins))",
+                 "all(len(self.bins[i]) == old(len(self.bins[i])) for i in range(len(self.bins)))",
+                 ALL2.format(body="self.bins[i][j] == old(self.bins[i][j])"),
+                 "self.n_out_of_range == old(self.n_out_of_range)", "self._scale == old(self._scale)"]
+    md = register_md_map(ix)
+    ix._p_hist2_md = md
+    sc = ix.by_key[(HI, "histogram.scale")]
+    new = [
+        Contract(HI, "histogram.scale", name="histogram.scale[2-d, set, computed before]",
+                 params={"self": "Self[histogram2_scaled]", "other": "Real", "recompute": "Bool"}, result=None,
+                 defaults={"recompute": False},
+                 raises={"LenaValueError": "self._scale == 0"}, exc_ensures={"LenaValueError": untouched},
+                 ensures=["len(self.bins) == old(len(self.bins))",
+                          "all(len(self.bins[i]) == old(len(self.bins[i])) for i in range(len(self.bins)))",
+                          ALL2.format(body="self.bins[i][j] == old(self.bins[i][j]) * other / old(self._scale)"),
+                          "self.n_out_of_range == old(self.n_out_of_range) * (other / old(self._scale))",
+                          "self._scale == other",
+                          # (ground instance of the cell-wise clause: the first cell)
+                          "self.bins[0][0] == old(self.bins[0][0]) * other / old(self._scale)"],
+                 modifies=["self.bins", "self.n_out_of_range", "self._scale"], ghost={"assumed_callees": {"md_map": md}}),
+        Contract(HI, "histogram.scale", name="histogram.scale[2-d, get, computed before]",
+                 params={"self": "Self[histogram2_scaled]", "other": "None", "recompute": "Bool"}, result="Real",
+                 defaults={"other": None, "recompute": False}, requires=["not recompute"],
+                 ensures=["result == old(self._scale)"] + untouched, modifies=[]),
+    ]
+    for c in new:
+        if not any(x.name == c.name for x in sc.cases):
+            sc.cases.append(c)
+    register_hist2d_init_add(ix, md)
+    register_iter_bins_2d(ix)
+
+
+def add_cases(ix, key, cases, first=False):
+    """further cases of a contract another module registered (other typings of the same function)"""
+    c = ix.by_key[key]
+    for k in cases:
+        if not any(x.name == k.name for x in c.cases):
+            if first:
+                c.cases.insert(0, k)
+            else:
+                c.cases.append(k)
+
+
+def register_hist2d_init_add(ix, md):
+    """histogram.__init__ / histogram.add for 2-dimensional histograms (docstrings quoted in P_hist.py; C12: `histogram.add
+    returns the cell-wise a + w*b without modifying its operands and only for equal edges`)."""
+    MU = "lena/math/utils.py"
+    ix.add_class(ClassSpec("histogram2", HI, fields=dict(H2_FIELDS, _scale="None"), invariant=H2_INV, alias_of="histogram"))
+    ix.add_class(ClassSpec("histogram2_any", HI, fields=H2_FIELDS, invariant=H2_INV, alias_of="histogram"))
+    H_ALL = ["self.edges", "self.bins", "self.n_out_of_range", "self.dim", "self._scale", "self.nbins", "self.ranges"]
+    bad_edges = " or ".join("len(edges[%d]) <= 1 or not %s" % (d, incr("edges[%d]" % d)) for d in range(2))
+    common = ["self.edges is edges", "self.n_out_of_range == 0", "self._scale is None", "self.dim == 2",
+              "self.nbins[0] == len(edges[0]) - 1", "self.nbins[1] == len(edges[1]) - 1",
+              "self.ranges[0][0] == edges[0][0]", "self.ranges[0][1] == edges[0][len(edges[0]) - 1]",
+              "self.ranges[1][0] == edges[1][0]", "self.ranges[1][1] == edges[1][len(edges[1]) - 1]"]
+    add_cases(ix, (HI, "histogram.__init__"), [
+        Contract(HI, "histogram.__init__", name="histogram.__init__[dim=2, bins given]",
+                 params={"self": "Self[histogram0]", "edges": "PyList[2,Lst[Real]]", "bins": "Lst[Lst[Real]]", "initial_value": "Real"},
+                 defaults={"initial_value": 0}, post_class="histogram2",
+                 # (only the number of rows is checked: a row of another length is the caller's business)
+                 requires=["all(len(bins[i]) == len(edges[1]) - 1 for i in range(len(bins)))"],
+                 raises={"LenaValueError": bad_edges + " or len(bins) != len(edges[0]) - 1"},
+                 ensures=common + ["same(self.bins, bins)"], modifies=H_ALL),
+        Contract(HI, "histogram.__init__", name="histogram.__init__[dim=2, bins None]",
+                 params={"self": "Self[histogram0]", "edges": "PyList[2,Lst[Real]]", "bins": "None", "initial_value": "Real"},
+                 defaults={"bins": None, "initial_value": 0}, post_class="histogram2",
+                 raises={"LenaValueError": bad_edges},
+                 ensures=common + ["len(self.bins) == len(edges[0]) - 1",
+                                   "all(len(self.bins[i]) == len(edges[1]) - 1 for i in range(len(self.bins)))",
+                                   ALL2.format(body="self.bins[i][j] == initial_value")],
+                 modifies=H_ALL)])
+    # isclose on the edges of a 2-dimensional histogram: [x edges, y edges]
+    CL = lambda d: "all(%s for k in range(len(a[%d])))" % (CLOSE.format(a="a[%d][k]" % d, b="b[%d][k]" % d), d)
+    add_cases(ix, (MU, "isclose"), [
+        Contract(MU, "isclose", name="isclose[two lists of two lists of numbers]",
+                 params={"a": "PyList[2,Lst[Real]]", "b": "PyList[2,Lst[Real]]", "rel_tol": "Real", "abs_tol": "Real"},
+                 result="Bool", defaults={"rel_tol": 1e-09, "abs_tol": 0.0},
+                 requires=["len(a[0]) <= len(b[0])", "len(a[1]) <= len(b[1])"],
+                 ensures=["result == (%s and %s)" % (CL(0), CL(1))], modifies=[])])
+    O_REQ = [inv.replace("self.", "other.") for inv in H2_INV]
+    EC = lambda d: "all(%s for k in range(len(self.edges[%d])))" % (
+        CLOSE.format(a="self.edges[%d][k]" % d, b="other.edges[%d][k]" % d)
+        .replace("rel_tol", "edges_rel_tol").replace("abs_tol", "edges_abs_tol"), d)
+    RB = "all(all({body} for j in range(len(result.bins[i]))) for i in range(len(result.bins)))"
+    add_cases(ix, (HI, "histogram.add"), [
+        Contract(HI, "histogram.add", name="histogram.add[2-d histograms]",
+                 params={"self": "Self[histogram2_any]", "other": "Inst[histogram2_any]", "weight": "Real",
+                         "edges_abs_tol": "Real", "edges_rel_tol": "Real"},
+                 defaults={"weight": 1, "edges_abs_tol": 0.0, "edges_rel_tol": 1e-09},
+                 result="Inst[histogram2]", requires=O_REQ,
+                 ghost={"assumed_callees": {"md_map": md}},
+                 raises={"LenaValueError": "len(self.edges[0]) != len(other.edges[0]) or len(self.edges[1]) != len(other.edges[1]) "
+                                           "or not (%s and %s)" % (EC(0), EC(1))},
+                 ensures=["result is not self and result is not other",
+                          "len(result.bins) == len(self.bins)",
+                          "all(len(result.bins[i]) == len(self.bins[i]) for i in range(len(result.bins)))",
+                          RB.format(body="result.bins[i][j] == self.bins[i][j] + weight * other.bins[i][j]"),
+                          "result.n_out_of_range == self.n_out_of_range + weight * other.n_out_of_range",
+                          "result.edges[0] == self.edges[0]", "result.edges[1] == self.edges[1]",
+                          "result._scale is None", "result.dim == 2"],
+                 modifies=[], raises_frame="pure")])
+
+
+MM = "lena/math/meshes.py"
+
+
+def register_md_map(ix):
+    """md_map docstring: `Return function f mapped to contents of multidimensional arrays.  f is a function of that many
+    arguments as the number of arrays.  An item of arrays must be a list of (possibly nested) lists.  Its contents remain
+    unchanged.  Returned array has same dimensions as those of the initial ones (they are all assumed equal).`
+    Call sites of the 1-dimensional contracts (P_hist) execute md_map in place; for nested lists the function calls itself
+    inside a comprehension, so here it is proved as a unit of its own (key `md_map#contract`) and the 2-dimensional callers
+    below use exactly these clauses (`assumed_callees`: listed as an assumption of the caller, proved here)."""
+    def cases(trusted):
+        A1, A2 = "arrays[0]", "arrays[1]"
+        return [
+            Contract(MM, "md_map", name="md_map[f, two 2-d lists]", trusted=trusted, vararg="arrays",
+                     params={"f": "Fn[Real,Real,Real]", "arrays": "Tuple[Lst[Lst[Real]],Lst[Lst[Real]]]"}, result="Lst[Lst[Real]]",
+                     requires=["len(%s) >= len(%s)" % (A2, A1),
+                               "all(len(%s[i]) >= len(%s[i]) for i in range(len(%s)))" % (A2, A1, A1)],
+                     ensures=["len(result) == len(%s)" % A1, "all(len(result[i]) == len(%s[i]) for i in range(len(result)))" % A1,
+                              "all(all(result[i][j] == f(%s[i][j], %s[i][j]) for j in range(len(result[i]))) for i in range(len(result)))"
+                              % (A1, A2)], modifies=[]),
+            Contract(MM, "md_map", name="md_map[f, one 2-d list]", trusted=trusted, vararg="arrays",
+                     params={"f": "Fn[Real,Real]", "arrays": "Tuple[Lst[Lst[Real]]]"}, result="Lst[Lst[Real]]",
+                     ensures=["len(result) == len(%s)" % A1, "all(len(result[i]) == len(%s[i]) for i in range(len(result)))" % A1,
+                              "all(all(result[i][j] == f(%s[i][j]) for j in range(len(result[i]))) for i in range(len(result)))" % A1],
+                     modifies=[]),
+            Contract(MM, "md_map", name="md_map[f, two 1-d lists]", trusted=trusted, vararg="arrays",
+                     params={"f": "Fn[Real,Real,Real]", "arrays": "Tuple[Lst[Real],Lst[Real]]"}, result="Lst[Real]",
+                     requires=["len(%s) >= len(%s)" % (A2, A1)],
+                     ensures=["len(result) == len(%s)" % A1,
+                              "all(result[i] == f(%s[i], %s[i]) for i in range(len(result)))" % (A1, A2)], modifies=[]),
+            Contract(MM, "md_map", name="md_map[f, one 1-d list]", trusted=trusted, vararg="arrays",
+                     params={"f": "Fn[Real,Real]", "arrays": "Tuple[Lst[Real]]"}, result="Lst[Real]",
+                     ensures=["len(result) == len(%s)" % A1, "all(result[i] == f(%s[i]) for i in range(len(result)))" % A1],
+                     modifies=[]),
+        ]
+    assumed = Contract(MM, "md_map", props=[], trusted=True, cases=cases(True),
+                       notes="the clauses of md_map#contract (proved there)")
+    proved = cases(False)
+    for c in proved:
+        # (`len(arrays) == 1` for a known number of arrays is decided, not explored as two branches)
+        c.ghost = {"fold_literals": True}
+    for c in proved[:2]:
+        c.ghost["assumed_callees"] = {"md_map": assumed}          # the recursive call on the rows: the 1-d clauses
+    ix.add(Contract(MM, "md_map", props=["C12"], qualkey="md_map#contract", cases=proved))
+    return assumed
+
+
+# ---------------------------------------------------------------------------------------------- iter_bins, integral (2-d)
+def _decl_flat(ip):
+    """reference functions of the row-major enumeration of a rectangular 2-dimensional array with rows of length ny >= 1:
+    cell number k is (ri2(ny, k), ci2(ny, k)):  cell 0 is (0, 0); the cell after (r, c) is (r, c + 1) if c + 1 < ny,
+    else (r + 1, 0).  rowoff2(b, i) = len(b[0]) + ... + len(b[i - 1]) is the number of cells of the first i rows."""
+    reg = ip.reg
+    llr = reg.lst(reg.lst("Real"))
+    lr = reg.lst("Real")
+    reg.ufun("ci2", ["Int", "Int"], "Int")
+    reg.ufun("ri2", ["Int", "Int"], "Int")
+    reg.fun_decl("rowoff2", "(declare-fun rowoff2 (%s Int) Int)" % llr)
+    # defining equations as axioms instantiated where the function is applied (total functions defined by recursion on
+    # the second argument: the equations have exactly one solution).  `define-fun-rec` makes the solvers unfold them
+    # without end on symbolic arguments.
+    AX = ["(forall ((ny Int) (k Int)) (! (= (ci2 ny k) (ite (<= k 0) 0 (ite (< (+ (ci2 ny (- k 1)) 1) ny) "
+          "(+ (ci2 ny (- k 1)) 1) 0))) :pattern ((ci2 ny k))))",
+          "(forall ((ny Int) (k Int)) (! (= (ri2 ny k) (ite (<= k 0) 0 (ite (< (+ (ci2 ny (- k 1)) 1) ny) "
+          "(ri2 ny (- k 1)) (+ (ri2 ny (- k 1)) 1)))) :pattern ((ri2 ny k))))",
+          "(forall ((b %s) (i Int)) (! (= (rowoff2 b i) (ite (<= i 0) 0 (+ (rowoff2 b (- i 1)) "
+          "(len_%s (select (arr_%s b) (- i 1)))))) :pattern ((rowoff2 b i))))" % (llr, lr, llr)]
+    for ax in AX:
+        if not any(a.s == ax for a in reg.axioms):
+            reg.axioms.append(T(ax, "Bool"))
+    return lr, llr
+
+
+def sp_ri2(ip, st, pos, kws):
+    _decl_flat(ip)
+    return Num(T("(ri2 %s %s)" % (ip.num(pos[0]).s, ip.num(pos[1]).s), "Int"))
+
+
+def sp_ci2(ip, st, pos, kws):
+    _decl_flat(ip)
+    return Num(T("(ci2 %s %s)" % (ip.num(pos[0]).s, ip.num(pos[1]).s), "Int"))
+
+
+def sp_rowoff2(ip, st, pos, kws):
+    from pyvc.speclib import lst_term
+    lr, llr = _decl_flat(ip)
+    return Num(T("(rowoff2 %s %s)" % (lst_term(ip, st, pos[0], llr).s, ip.num(pos[1]).s), "Int"))
+
+
+def sp_integral2d(ip, st, pos, kws):
+    """integral2d(bins, e0, e1, n): sum over the first n cells (row-major) of (e0[r+1] - e0[r]) * (e1[c+1] - e1[c]) *
+    bins[r][c]  (`scale (integral of the histogram)`, over the reals)"""
+    from pyvc.speclib import lst_term
+    lr, llr = _decl_flat(ip)
+    # area of cell (r, c); a function of its own so that the scaling lemma can be proved for ANY such function
+    ip.reg.fun_decl("vol2d", (
+        "(define-fun vol2d ((e0 {lr}) (e1 {lr}) (r Int) (c Int)) Real (* (* 1.0 (- (select (arr_{lr} e0) (+ r 1)) "
+        "(select (arr_{lr} e0) r))) (- (select (arr_{lr} e1) (+ c 1)) (select (arr_{lr} e1) c))))").format(lr=lr))
+    # integral2d is an uninterpreted symbol; its defining equation is added as a fact for every GROUND application a
+    # clause makes (not for applications under a quantifier): a quantified or recursive definition makes the solvers
+    # unfold it without end in queries that only need the symbol
+    ip.reg.fun_decl("integral2d", "(declare-fun integral2d (%s %s %s Int) Real)" % (llr, lr, lr))
+    b = lst_term(ip, st, pos[0], llr)
+    e0, e1 = lst_term(ip, st, pos[1], lr), lst_term(ip, st, pos[2], lr)
+    n = ip.num(pos[3])
+    app = "(integral2d %s %s %s %s)" % (b.s, e0.s, e1.s, n.s)
+    if _ground(app):
+        ny = "(len_%s (select (arr_%s %s) 0))" % (lr, llr, b.s)
+        r, c = "(ri2 %s (- %s 1))" % (ny, n.s), "(ci2 %s (- %s 1))" % (ny, n.s)
+        inst = ("(= {app} (ite (<= {n} 0) 0.0 (+ (integral2d {b} {e0} {e1} (- {n} 1)) (* (vol2d {e0} {e1} {r} {c}) "
+                "(select (arr_{lr} (select (arr_{llr} {b}) {r})) {c})))))").format(app=app, n=n.s, b=b.s, e0=e0.s, e1=e1.s, r=r, c=c,
+                                                                                lr=lr, llr=llr)
+        if not any(h.s == inst for h in st.pc):
+            st.assume(T(inst, "Bool"))
+    return Num(T(app, "Real"))
+
+
+def _ground(text):
+    """no bound variable occurs in the SMT text: declared constants are written |name!k|, everything else that looks like
+    an identifier with a number is a bound variable (q12, li3, wf0 ...) unless it is one of the function symbols used here"""
+    import re
+    t = re.sub(r"\|[^|]*\|", " ", text)
+    t = re.sub(r"\b(ri2|ci2|vol2d|integral2d|rowoff2)\b", " ", t)
+    return re.search(r"\b[A-Za-z_]+[0-9]+\b", t) is None
+
+
+def register_iter_bins_2d(ix):
+    """iter_bins docstring: `Iterate on bins.  Yield (index, bin content).  Edges with higher index are iterated first (that
+    is z, then y, then x for a 3-dimensional histogram).`  2-dimensional (rectangular) bins: the k-th value is cell
+    (ri2(ny, k), ci2(ny, k)) with its content -- every cell once, row by row."""
+    for n, f in (("ri2", sp_ri2), ("ci2", sp_ci2), ("rowoff2", sp_rowoff2), ("integral2d", sp_integral2d)):
+        ix.spec_names[n] = f
+    NY = "len(bins[0])"
+    R, C = "ri2(%s, k)" % NY, "ci2(%s, k)" % NY
+    cell = ("out[k][0][0] == {r} and out[k][0][1] == {c} and out[k][1] == bins[{r}][{c}] and "
+            "0 <= out[k][0][0] < len(bins) and 0 <= out[k][0][1] < {ny}").format(r=R, c=C, ny=NY)
+    ALLK = "all(%s for k in range(len(out)))" % cell
+    L = "len(out) - 1"
+    last = lambda r, c: "ri2(%s, %s) == %s and ci2(%s, %s) == %s" % (NY, L, r, NY, L, c)
+    add_cases(ix, (HF, "iter_bins"), [
+        Contract(HF, "iter_bins", name="iter_bins[2-d bins]",
+                 params={"bins": "Lst[Lst[Real]]"}, generator=True, yields="Tuple[Tuple[Int,Int],Real]",
+                 requires=["len(bins) >= 1", "len(bins[0]) >= 1", "all(len(bins[i]) == len(bins[0]) for i in range(len(bins)))"],
+                 loops={0: LoopSpec(invariant=["len(out) == (_i0 * len(bins[0]))", "_i0 <= len(bins)", ALLK,
+                                               "_i0 > 0 implies " + last("_i0 - 1", NY + " - 1"),
+                                               # (the position of the next cell)
+                                               "ri2(%s, len(out)) == _i0 and ci2(%s, len(out)) == 0" % (NY, NY)]),
+                        1: LoopSpec(invariant=["len(out) == (_i0 * len(bins[0])) + _i1", "_i1 <= " + NY, "_i0 < len(bins)",
+                                               "_i1 < %s implies ri2(%s, len(out)) == _i0 and ci2(%s, len(out)) == _i1" % (NY, NY, NY),
+                                               "_i1 == %s implies ri2(%s, len(out)) == _i0 + 1 and ci2(%s, len(out)) == 0" % (NY, NY, NY),
+                                               ALLK,
+                                               "_i1 > 0 implies " + last("_i0", "_i1 - 1"),
+                                               "_i1 == 0 and _i0 > 0 implies " + last("_i0 - 1", NY + " - 1")])},
+                 at_yield=["yielded[0][0] == ri2(%s, len(out))" % NY, "yielded[0][1] == ci2(%s, len(out))" % NY,
+                           "yielded[1] == bins[yielded[0][0]][yielded[0][1]]"],
+                 out_def=("(len(bins) * len(bins[0]))", "k", "((%s, %s), bins[%s][%s])" % (R, C, R, C)),
+                 ensures=["len(out) == (len(bins) * len(bins[0]))",
+                          "all(out[k] == ((%s, %s), bins[%s][%s]) for k in range(len(out)))" % (R, C, R, C),
+                          "all(0 <= %s < len(bins) and 0 <= %s < %s for k in range(len(out)))" % (R, C, NY)])])
+
+    RECT = ["len(edges[0]) >= 2", "len(edges[1]) >= 2", "len(bins) == len(edges[0]) - 1",
+            "all(len(bins[i]) == len(edges[1]) - 1 for i in range(len(bins)))"]
+    add_cases(ix, (HF, "integral"), [
+        Contract(HF, "integral", name="integral[2-d: bins, [x edges, y edges]]",
+                 params={"bins": "Lst[Lst[Real]]", "edges": "PyList[2,Lst[Real]]"}, result="Real", requires=RECT,
+                 loops={0: LoopSpec(invariant=[
+                     "total == integral2d(bins, edges[0], edges[1], _i)",
+                     # (the next cell lies inside the array: an instance of iter_bins' range clause)
+                     "_i < (len(bins) * len(bins[0])) implies 0 <= ri2(len(bins[0]), _i) < len(bins) and "
+                     "0 <= ci2(len(bins[0]), _i) < len(bins[0])"], ghost={"total": "Real"})},
+                 # the sum over all cells (row by row) of cell area * content
+                 ensures=["result == integral2d(bins, edges[0], edges[1], (len(bins) * len(bins[0])))",
+                          # (every cell number lies inside the array: iter_bins' clause, handed on to callers)
+                          "all(0 <= ri2(len(bins[0]), k) < len(bins) and 0 <= ci2(len(bins[0]), k) < len(bins[0]) "
+                          "for k in range((len(bins) * len(bins[0]))))"])])
+
+    # ---- histogram.scale, 2-d, scale computed from the integral
+    I2 = "integral2d(self.bins, self.edges[0], self.edges[1], (len(self.bins) * len(self.bins[0])))"
+    untouched = ["len(self.bins) == old(len(self.bins))",
+                 "all(len(self.bins[i]) == old(len(self.bins[i])) for i in range(len(self.bins)))",
+                 ALL2.format(body="self.bins[i][j] == old(self.bins[i][j])"),
+                 "self.n_out_of_range == old(self.n_out_of_range)"]
+    md = ix._p_hist2_md
+    # (every cell number lies inside the array: handed on from integral / iter_bins)
+    RANGES = ("all(0 <= ri2(len(self.bins[0]), k) < len(self.bins) and 0 <= ci2(len(self.bins[0]), k) < len(self.bins[0]) "
+              "for k in range(len(self.bins) * len(self.bins[0])))")
+    add_cases(ix, (HI, "histogram.scale"), [
+        Contract(HI, "histogram.scale", name="histogram.scale[2-d, get, not computed before]",
+                 params={"self": "Self[histogram2]", "other": "None", "recompute": "Bool"}, result="Real",
+                 defaults={"other": None, "recompute": False}, post_class="histogram2_scaled",
+                 ensures=["result == " + I2, "self._scale == result", RANGES] + untouched, modifies=["self._scale"]),
+        Contract(HI, "histogram.scale", name="histogram.scale[2-d, get, recompute]",
+                 params={"self": "Self[histogram2_scaled]", "other": "None", "recompute": "Bool"}, result="Real",
+                 defaults={"other": None, "recompute": False}, requires=["recompute"],
+                 ensures=["result == " + I2, "self._scale == result", RANGES] + untouched, modifies=["self._scale"]),
+        Contract(HI, "histogram.scale", name="histogram.scale[2-d, set, not computed before]",
+                 params={"self": "Self[histogram2]", "other": "Real", "recompute": "Bool"}, result=None,
+                 defaults={"recompute": False}, post_class="histogram2_scaled",
+                 ghost={"assumed_callees": {"md_map": md}},
+                 raises={"LenaValueError": I2 + " == 0"}, exc_ensures={"LenaValueError": untouched},
+                 lemmas=["integral2d_scaled(self.bins, old(self.bins), self.edges[0], self.edges[1], other, old(%s), "
+                         "(len(self.bins) * len(self.bins[0])))" % I2],
+                 ensures=[I2 + " == other",          # C12: the recomputed scale equals the requested one (over the reals)
+                          "len(self.bins) == old(len(self.bins))",
+                          "all(len(self.bins[i]) == old(len(self.bins[i])) for i in range(len(self.bins)))",
+                          ALL2.format(body="self.bins[i][j] == old(self.bins[i][j]) * other / old(%s)" % I2),
+                          "self.n_out_of_range == old(self.n_out_of_range) * (other / old(%s))" % I2,
+                          "self._scale == other"],
+                 modifies=["self.bins", "self.n_out_of_range", "self._scale"])])
+
+    register_lemma_2d(ix)
+
+
+# ---- lemma: rescaling every cell by num/den rescales integral2d by num/den (induction on the number of cells)
+def _i2_parts(lr, llr):
+    ny = lambda b: "(len_%s (select (arr_%s %s) 0))" % (lr, llr, b)
+    cellk = lambda b, k: "(select (arr_{lr} (select (arr_{llr} {b}) (ri2 {ny} {k}))) (ci2 {ny} {k}))".format(lr=lr, llr=llr, b=b, ny=ny(b), k=k)
+    return ny, cellk
+
+
+def integral2d_scaled_stmt(lr, llr, b2, b1, e0, e1, num, den, n, i="li"):
+    ny, cellk = _i2_parts(lr, llr)
+    prem = ("(and (not (= {den} 0.0)) (= {ny2} {ny1}) (forall (({i} Int)) (=> (and (<= 0 {i}) (< {i} {n})) "
+            "(= {c2} (/ (* {c1} {num}) {den})))))").format(den=den, ny2=ny(b2), ny1=ny(b1), i=i, n=n, c2=cellk(b2, i), c1=cellk(b1, i), num=num)
+    concl = "(= (integral2d {b2} {e0} {e1} {n}) (/ (* (integral2d {b1} {e0} {e1} {n}) {num}) {den}))".format(
+        b2=b2, b1=b1, e0=e0, e1=e1, n=n, num=num, den=den)
+    return prem, concl
+
+
+def sp_integral2d_scaled(ip, st, pos, kws):
+    """integral2d_scaled(new_bins, old_bins, e0, e1, num, den, n): instance of the lemma `if den != 0, both arrays have rows
+    of the same length and each of the first n cells (row-major) of new_bins is the cell of old_bins times num/den, then
+    integral2d(new_bins, e0, e1, n) == integral2d(old_bins, e0, e1, n) * num / den`"""
+    from pyvc.speclib import lst_term
+    from pyvc.sym import Bool
+    from pyvc.smt import to_real
+    lr, llr = _decl_flat(ip)
+    sp_integral2d(ip, st, [pos[0], pos[2], pos[3], Num(T("0", "Int"))], {})          # (declares integral2d)
+    b2, b1 = lst_term(ip, st, pos[0], llr), lst_term(ip, st, pos[1], llr)
+    e0, e1 = lst_term(ip, st, pos[2], lr), lst_term(ip, st, pos[3], lr)
+    prem, concl = integral2d_scaled_stmt(lr, llr, b2.s, b1.s, e0.s, e1.s, to_real(ip.num(pos[4])).s, to_real(ip.num(pos[5])).s,
+                                         ip.num(pos[6]).s, "li%d" % next(ip.bound))
+    return Bool(T("(=> %s %s)" % (prem, concl), "Bool"))
+
+
+def lemma_2d_build(ip, st):
+    """base n <= 0; step-a: the premise for n gives the premise for n - 1; step-b: premise(n), conclusion(n - 1) and the
+    defining equations of integral2d at n give conclusion(n).  integral2d, ri2, ci2 are left uninterpreted here: only the
+    instances of the defining equation written below are used."""
+    from pyvc.interp import VC
+    reg = ip.reg
+    lr = reg.lst("Real")
+    llr = reg.lst(lr)
+    reg.ufun("ci2", ["Int", "Int"], "Int")
+    reg.ufun("ri2", ["Int", "Int"], "Int")
+    reg.fun_decl("integral2d", "(declare-fun integral2d (%s %s %s Int) Real)" % (llr, lr, lr))
+    reg.fun_decl("vol2d", "(declare-fun vol2d (%s %s Int Int) Real)" % (lr, lr))
+    b2, b1 = reg.new("new_bins", llr), reg.new("old_bins", llr)
+    e0, e1 = reg.new("e0", lr), reg.new("e1", lr)
+    num, den, n = reg.new("num", "Real"), reg.new("den", "Real"), reg.new("n", "Int")
+    ny, cellk = _i2_parts(lr, llr)
+
+    def definition(b, nn):
+        k = "(- %s 1)" % nn
+        r, c = "(ri2 %s %s)" % (ny(b), k), "(ci2 %s %s)" % (ny(b), k)
+        vol = "(vol2d %s %s %s %s)" % (e0.s, e1.s, r, c)
+        return "(= (integral2d {b} {e0} {e1} {n}) (ite (<= {n} 0) 0.0 (+ (integral2d {b} {e0} {e1} (- {n} 1)) (* {vol} {cell}))))".format(
+            b=b, e0=e0.s, e1=e1.s, n=nn, vol=vol, cell=cellk(b, k))
+    stmt = lambda nn: integral2d_scaled_stmt(lr, llr, b2.s, b1.s, e0.s, e1.s, num.s, den.s, nn)
+    nm1 = "(- %s 1)" % n.s
+    (p_n, c_n), (p_m, c_m) = stmt(n.s), stmt(nm1)
+    base = st.copy()
+    base.assume(T("(<= %s 0)" % n.s, "Bool"))
+    base.assume(T(definition(b2.s, n.s), "Bool"))
+    base.assume(T(definition(b1.s, n.s), "Bool"))
+    ip.emit("lemma", "scaling lemma (integral2d): base case n <= 0", base, T("(=> %s %s)" % (p_n, c_n), "Bool"))
+    sa = st.copy()
+    sa.assume(T("(> %s 0)" % n.s, "Bool"))
+    sa.assume(T(p_n, "Bool"))
+    ip.emit("lemma", "scaling lemma (integral2d): step, the premise for n gives the premise for n - 1", sa, T(p_m, "Bool"))
+    sb = st.copy()
+    sb.assume(T("(> %s 0)" % n.s, "Bool"))
+    sb.assume(T(p_n, "Bool"))
+    sb.assume(T(c_m, "Bool"))
+    sb.assume(T(definition(b2.s, n.s), "Bool"))
+    sb.assume(T(definition(b1.s, n.s), "Bool"))
+    ip.emit("lemma", "scaling lemma (integral2d): step n - 1 -> n", sb, T(c_n, "Bool"))
+    ip.vcs.append(VC("cover requires", "cover", list(sb.pc), T("false", "Bool"), ""))
+
+
+def register_lemma_2d(ix):
+    from pyvc.verify import Lemma
+    ix.spec_names["integral2d_scaled"] = sp_integral2d_scaled
+    ix.lemma_functions = set(getattr(ix, "lemma_functions", ())) | {"integral2d_scaled"}
+    if not any(l.name.startswith("integral2d:") for l in ix.lemmas):
+        ix.lemmas.append(Lemma("integral2d: rescaling the cells rescales the integral", HF, ["C12"], lemma_2d_build,
+                               notes="induction on the number of cells (row-major); used by histogram.scale[2-d] through lemmas=[...]"))
